@@ -445,6 +445,10 @@ def chunks(it, n):
 DEFINE_SPECS = [  # (value, unit it is given in, exact SI scale, dimension of the new unit)
     (0.75, "m", 0.75, "length"), (3.0, "km", 3000.0, "length"), (2.0, "hr", 7200.0, "time"), (5.0, "g", 0.005, "mass"),
     (1.5, "erg", 1.5e-7, "energy"), (2.0, "mile/hr", 2.0 * 1609.344 / 3600.0, "velocity"), (4.0, "dyn", 4.0e-5, "force"),
+    # electromagnetic definitions: SI ones, and Gaussian ones (scale None = v x the table's own scale of that Gaussian unit,
+    # which the names part checks; the new unit keeps the Gaussian dimension)
+    (3.0, "mT", 3.0e-3, "magnetic_field_mks"), (2.0, "mC", 2.0e-3, "charge_mks"), (5.0, "kV", 5.0e3, "electric_potential_mks"),
+    (1000.0, "G", None, "magnetic_field_cgs"), (2.0, "statC", None, "charge_cgs"), (3.0, "statV", None, "electric_potential_cgs"), (7.0, "statA", None, "current_cgs"),
 ]
 
 
@@ -461,6 +465,8 @@ def part_define(ctx, shard):
         for (v, u, si_scale, dimname), form in itertools.product(DEFINE_SPECS, ("tuple", "quantity", "quantity-in-registry", "modify-quantity")):
             ctx.count("evaluations")
             reg = UnitRegistry() if us is None else UnitRegistry(unit_system=us)
+            if si_scale is None:
+                si_scale = v * float(Unit(u).base_value)
             case = {"part": "define", "unit_system": us, "value": v, "given_in": u, "form": form}
             base = f"C02|define|system={us}|form={form}|dim={dimname}"
             try:
